@@ -2,7 +2,7 @@
 import json, os
 from ..facts import ty_adt, tystr, walk_ty, place_local, place_proj, op_place
 from ..cfg import CFG, Tracer
-from .. import dt, core, serdewrap as sw
+from .. import inline, dt, core, serdewrap as sw
 from . import c01
 
 ANY = "conjure_object::any::Any"
@@ -124,7 +124,7 @@ def run(ctx):
             ctx.violation("R13.2", f"{ser_impl[0]['file']}:{ser_impl[0]['line']}", f"ser|{m}|missing", f"AnySerializer::{m} not overridden")
             continue
         built = set()
-        fam = [b] + c.closures_of(b)
+        eb_, fam = inline.expanded_family(c, b, depth=2, pred=lambda cb: cb.d.get("vis") != "pub" and "/any/" in (cb.file or ""))
         for x in fam:
             built |= {v for v, _ in variants_built(x, F)}
         delegated = {t["call"]["name"] for x in fam for _, t in x.calls() if t["call"].get("trait") == "serde_core::ser::Serializer" and t["call"]["name"] in spec["serializer"]}
@@ -143,8 +143,9 @@ def run(ctx):
         b = c.methods_of_impl(i).get("end")
         if b is None:
             continue
-        built = {v for x in [b] + c.closures_of(b) for v, _ in variants_built(x, F)}
-        for x in [b] + c.closures_of(b):
+        eb_, fam_ = inline.expanded_family(c, b, depth=2, pred=lambda cb: cb.d.get("vis") != "pub" and "/any/" in (cb.file or ""))
+        built = {v for x in fam_ for v, _ in variants_built(x, F)}
+        for x in fam_:
             for _, t in x.calls():
                 if t["call"]["name"] == "end" and t["call"].get("trait") in spec["compound_end"]:
                     built.add(spec["compound_end"][t["call"]["trait"]])
@@ -244,6 +245,18 @@ def run(ctx):
                 good = dt.dominated_by_success(cfg, F, parses[0][0], visits[0][0])
                 tr = Tracer(b)
                 good = good and ("call", parses[0][0]) in {s if s[0] != "field" else s[1] for s in tr.sources(visits[0][1]["args"][1])}
+            elif not parses and len(visits) == 1 and visits[0][1]["call"]["name"] == vis:
+                # combinator form: key.and_then(|k| k.parse().ok()) matched as Some(v) => visit(v)
+                cparses = [(x, t) for x in c.closures_of(b) for _, t in x.calls() if t["call"].get("name") == "parse" and "core::str" in t["call"]["def"]]
+                parses = [(0, t) for _, t in cparses]
+                if len(cparses) == 1 and [tystr(x) for x in cparses[0][1]["call"]["substs"]] == [ty]:
+                    clo = cparses[0][0]
+                    comb = [(bb, t) for bb, t in b.calls() if t["call"]["name"] in ("and_then", "map", "filter_map") and any(
+                        s_[0] == "agg" and b.blocks[s_[1]]["s"][s_[2]]["r"].get("id") == clo.id for a_ in t["args"] for s_ in Tracer(b).sources(a_))]
+                    if len(comb) == 1:
+                        vsrc = {s_ if s_[0] != "field" else s_[1] for s_ in Tracer(b).sources(visits[0][1]["args"][1])}
+                        on_some = any(dt.switch_atom(b, sbb)[0] == "discr" and dt.allowed_variants(al, av, ["None", "Some"]) == {"Some"} for sbb, al, av in dt.edge_conditions(cfg, visits[0][0]))
+                        good = ("call", comb[0][0]) in vsrc and on_some
             ctx.check(good, "R13.3", b.loc(), f"key|{m}", f"key coercion {m}: must parse the key text as {ty} and hand the parsed value to {vis} (found parse::<{[tystr(x) for t_ in parses for x in t_[1]['call']['substs']]}>, visits {[t_[1]['call']['name'] for t_ in visits]})",
                       instance=f"key {m}: str::parse::<{ty}> -> {vis}")
     ctx.floor("R13.3", "key coercion rows", rows, 13)
